@@ -92,7 +92,7 @@ func (c *gcase) genInputs(r *rand.Rand, maxStrings, nLong int) {
 	nT := len(c.G.Tokens)
 	alphabet := make([]int, 0, nT+1)
 	for t := 0; t < nT; t++ {
-		if c.G.TokenExists(t) {
+		if c.G.TokenExists(t) && t < 62 { // the drivers' input encoding holds 62 tokens
 			alphabet = append(alphabet, t)
 		}
 	}
